@@ -122,6 +122,7 @@ func checkC17(c *Ctx, r *Report) {
 	r.rule("C17.R5", "the error of every diam Marshal/Unmarshal call is tested on its own result before the message is used", 8)
 	r.rule("C17.R7", "every message is decoded into a struct that is empty: a new local object per decode (go-diameter only sets the members whose AVPs are present, so optional groups of an earlier message would stay)", 4)
 	r.rule("C17.R8", "the named constants of an Enumerated AVP's Go type carry the codes the dictionary gives the items of the same name (the peer - and the switch statements on both sides - mean the dictionary's value)", 4)
+	r.rule("C17.R9", "no numeric member is dropped from the message when it holds 0: go-diameter's omitempty (explicit, or implied by a tag that carries other keys) only on members whose empty value means absent", 0)
 	r.rule("C17.R6", "AVP code constants of ccs_diameter/code that name a dictionary AVP carry that AVP's code", 20)
 
 	dictPkg := c.pkg("ccs_diameter/dict")
@@ -246,6 +247,30 @@ func checkC17(c *Ctx, r *Report) {
 		if !ok {
 			continue
 		}
+		// a member that is named like the AVP another member of the struct carries: swapped tags
+		{
+			normN := func(s string) string {
+				return strings.ToLower(strings.NewReplacer("-", "", "_", "").Replace(s))
+			}
+			carriedBy := map[string]string{}
+			own := map[string]string{}
+			for i := 0; i < st.NumFields(); i++ {
+				if an := parseAvpTagName(reflect.StructTag(st.Tag(i))); an != "" {
+					carriedBy[normN(an)] = st.Field(i).Name()
+					own[st.Field(i).Name()] = an
+				}
+			}
+			for i := 0; i < st.NumFields(); i++ {
+				f := st.Field(i)
+				an := own[f.Name()]
+				if an == "" || normN(an) == normN(f.Name()) {
+					continue
+				}
+				if other, ok := carriedBy[normN(f.Name())]; ok && other != f.Name() {
+					r.viol("C17.R1", name+"."+f.Name()+"|tag of a sibling", c.rel(f.Pos()), "member "+f.Name()+" carries avp:\""+an+"\" while the AVP it is named after is carried by its sibling "+other+": what the module puts into "+f.Name()+" travels under the other AVP (both peers of this module agree with each other, a peer that follows the dictionary reads the amounts crossed over)")
+				}
+			}
+		}
 		seenAvp := map[string]string{} // AVP name -> member that carries it, within this struct
 		for i := 0; i < st.NumFields(); i++ {
 			f := st.Field(i)
@@ -280,6 +305,13 @@ func checkC17(c *Ctx, r *Report) {
 				continue
 			}
 			usedNames[avpName] = a
+			if _, omit := parseAvpTagFull(tag); omit {
+				if b, isBasic := f.Type().Underlying().(*types.Basic); isBasic && b.Info()&(types.IsInteger|types.IsBoolean|types.IsFloat) != 0 {
+					r.viol("C17.R9", key+"|"+avpName+" omitted when zero", c.rel(f.Pos()), fmt.Sprintf("go-diameter treats the tag %q as omitempty (explicitly, or because the tag carries more than the avp key: its parseAvpTag then falls back to a look-up that reports omitempty): the AVP is left out whenever the member holds 0 - a value that was put into it and is not received as an AVP (request number 0, type 0, an amount of 0)", st.Tag(i)))
+				} else {
+					r.proven("C17.R9", key+"|"+avpName+" omitted when zero", c.rel(f.Pos()), "omitempty on a member whose empty value carries no information (pointer, group, string, list)")
+				}
+			}
 			c17EnumConstants(c, r, dtPkg.Types, f.Type(), a, enumDone)
 			ok2, why := c17TypeCompat(c, f.Type(), a, ds, appID, 0)
 			r.check(ok2, "C17.R2", key+"|"+avpName, c.rel(f.Pos()), "field type "+types.TypeString(f.Type(), shortQual)+" matches "+a.Data.TypeName, why)
@@ -362,6 +394,34 @@ func parseAvpTagName(tag reflect.StructTag) string {
 		return name[:idx]
 	}
 	return name
+}
+
+// parseAvpTagFull mirrors go-diameter's parseAvpTag (diam/reflect.go, v3.0.2) including its
+// second result: a tag that is exactly avp:"Name" is not omitempty, avp:"Name,omitempty" is,
+// and a tag that carries anything else besides the avp key (json:"..", a second key) falls
+// through to the reflect.StructTag look-up, which reports omitempty = true unless the value
+// contains a comma.
+func parseAvpTagFull(tag reflect.StructTag) (string, bool) {
+	if tag == "" {
+		return "", false
+	}
+	name := string(tag)
+	if strings.HasPrefix(name, "avp:\"") {
+		name = name[5 : len(name)-1]
+		omitEmpty := false
+		if strings.HasSuffix(name, ",omitempty") {
+			name = name[0 : len(name)-10]
+			omitEmpty = true
+		}
+		if strings.IndexByte(name, '"') == -1 {
+			return name, omitEmpty
+		}
+	}
+	name = tag.Get("avp")
+	if idx := strings.Index(name, ","); idx != -1 {
+		return name[:idx], false
+	}
+	return name, true
 }
 
 // c17TypeCompat mirrors diam.marshal's case analysis on the static type.
